@@ -536,7 +536,8 @@ META = {
     "technique": "typed dataflow of linear-operator callables (Hermitian x scalar factor) to every Krylov call, symbolic (sympy) comparison of solver exponents along prologue paths, structural checks of controllers and RK stage usage",
     "text": "Clause-only: decides the solver-independence and operator-typing conditions without which the schemes cannot converge to "
             "exp(-iHt) (Hermitian precondition of the Lanczos exponential, equal exponents in both local solvers, correct stage times and "
-            "weights, rejected steps discarded, compressed results). Convergence orders and conservation are numerical and not decided.",
+            "weights, rejected steps discarded, compressed results). Convergence orders and conservation are numerical and not decided."
+            ' Adaptive error estimates divide norms of one kind; temporarily modified configurations are saved as copies and restored.',
     "note": "Operator callables are typed from their constructors (hop_expr*, integrand_func_factory); an untypable operand stops the analysis.",
     "design_ref": "DESIGN.md 3.5, 3.6, 4 (C09)",
 }
